@@ -17,6 +17,7 @@ import (
 	"github.com/buildbarn/bb-storage/pkg/blobstore/buffer"
 	"github.com/buildbarn/bb-storage/pkg/blobstore/local"
 	"github.com/buildbarn/bb-storage/pkg/digest"
+	"github.com/buildbarn/bb-storage/pkg/eviction"
 	pb "github.com/buildbarn/bb-storage/pkg/proto/blobstore/local"
 	"github.com/fxtlabs/primes"
 
@@ -42,6 +43,11 @@ type Config struct {
 	MinEpoch             time.Duration
 	Retry                time.Duration
 	Label                string // storage_type label for Prometheus
+	// ValidationCache wraps the CAS read-buffer factory with the data
+	// integrity validation cache (blocks_on_block_device.
+	// data_integrity_validation_cache in the real configuration), with a
+	// cache duration of one minute on the virtual clock.
+	ValidationCache bool
 }
 
 func (c Config) String() string {
@@ -53,8 +59,8 @@ func (c Config) String() string {
 	if c.Mutable {
 		pol = "mutable"
 	}
-	return fmt.Sprintf("%s sector=%d blockSectors=%d old/cur/new/spare=%d/%d/%d/%d %s records=%d attempts=%d/%d memBlocks=%v memIndex=%v persistent=%v factory=%s kf=%d",
-		f, c.Sector, c.BlockSectors, c.Old, c.Cur, c.New, c.Spare, pol, c.Records, c.GetAttempts, c.PutAttempts, c.InMemoryBlocks, c.InMemoryIndex, c.Persistent, c.Factory, c.KeyFormat)
+	return fmt.Sprintf("%s sector=%d blockSectors=%d old/cur/new/spare=%d/%d/%d/%d %s records=%d attempts=%d/%d memBlocks=%v memIndex=%v persistent=%v factory=%s kf=%d valcache=%v",
+		f, c.Sector, c.BlockSectors, c.Old, c.Cur, c.New, c.Spare, pol, c.Records, c.GetAttempts, c.PutAttempts, c.InMemoryBlocks, c.InMemoryIndex, c.Persistent, c.Factory, c.KeyFormat, c.ValidationCache)
 }
 
 // BlockBytes is the block size.
@@ -268,9 +274,13 @@ type AllocWrap struct {
 	FailAt  map[int64]bool
 	FailErr error
 	blocks  []*BlockWrap
+	gate    *Gate // point "alloc.newblock": passed before every NewBlock call
 }
 
 func (a *AllocWrap) NewBlock() (local.Block, *pb.BlockLocation, error) {
+	if a.gate != nil {
+		a.gate.Pass("alloc.newblock")
+	}
 	a.mu.Lock()
 	a.calls++
 	n := a.calls
@@ -719,6 +729,10 @@ func Build(c Config, m *Media) (*Store, error) {
 	default:
 		inner = blobstore.CASReadBufferFactory
 	}
+	if c.ValidationCache && c.Factory == "cas" && !c.InMemoryBlocks {
+		inner = blobstore.NewValidationCachingReadBufferFactory(inner,
+			digest.NewExistenceCache(m.Clock, digest.KeyWithInstance, 10000, time.Minute, eviction.NewLRUSet[string]()))
+	}
 	s.Factory = &FactoryWrap{Inner: inner, Raw: c.Factory == "raw", log: s.Log}
 	if m.Blocks.Hook == nil {
 		g := s.Gate
@@ -736,7 +750,7 @@ func Build(c Config, m *Media) (*Store, error) {
 	} else {
 		s.RealAlloc = local.NewBlockDeviceBackedBlockAllocator(m.Blocks, s.Factory, sector, blockSectors, c.BlockCount(), label)
 	}
-	s.Alloc = &AllocWrap{Inner: s.RealAlloc, log: s.Log, FailAt: map[int64]bool{}}
+	s.Alloc = &AllocWrap{Inner: s.RealAlloc, log: s.Log, FailAt: map[int64]bool{}, gate: s.Gate}
 
 	var bl local.BlockList
 	if !c.Persistent {
